@@ -22,7 +22,21 @@
    [KeepSeq]) and the plausible wrong edit ([KeyTransaction]: the early response
    is identified by the transaction; [DropSeqOnDecodeError]: the error path
    returns a response without its sequence id).  The traces below record the ids
-   the CLIENT used, which is what the property speaks about. *)
+   the CLIENT used, which is what the property speaks about.
+
+   Tie to the code: no suite evaluates drun / brun.  Suite dispatch evaluates
+   Model.run_policy on the case harness/cmd/c17/ident.go:dispatchAsPolicy builds
+   from what the real dispatcher did: that Go function is the mirror of
+   [map (dev_gev KeySequence)] (event of sequence Seq, opening iff the request's
+   ID = SequenceID, status of the remedy or of the provider), written in Go, not
+   evaluated in Coq — the front-end step itself is TESTED (differential suite +
+   monitor), the Coq side proves only drun KeySequence = grun o map dev_gev
+   (drun_keyseq).  Suite flowbody evaluates Model.run_flowproc; bodies exist on
+   the Go side only (brun_keep: with KeepSeq the body is the identity).
+
+   [no_seq] = 0 is also a legal client id: flow_body_bound_keep holds for every
+   s including 0 (no hypothesis s <> no_seq is needed, KeepSeq never produces
+   the token); the refutation witness uses ids 1 and 2. *)
 From Coq Require Import List ZArith Bool Lia.
 From Verif Require Import C17.Model C17.Spec C17.Proofs.
 Import ListNotations.
